@@ -72,12 +72,13 @@ def buildAuthoritativeS (z : Zone) (origin : LName) (q : Query) (dnssecOk nsec :
     { rcode := if e == .nxDomain then .nxDomain else .noError, aa := true,
       answers := [], authority := nsecs ++ soa }
   | .ok (_, answers, _) =>
+    let ref := isReferral origin answers
     let ns :=
-      if q.type == T_SOA then okAnswers (lookupAnswers z origin origin T_NS)
+      if q.type == T_SOA && !ref then okAnswers (lookupAnswers z origin origin T_NS)
       else if nsec && dnssecOk && hasWildcardMatch answers then nsecRecords z origin q.name
       else []
-    if isReferral answers q.type then
-      { rcode := .noError, aa := true, answers := [], authority := answers ++ ns }
+    if ref then
+      { rcode := .noError, aa := false, answers := [], authority := answers ++ ns }
     else
       { rcode := .noError, aa := true, answers := answers, authority := ns }
 
